@@ -6,9 +6,10 @@
 (* One TLC run validates a batch of traces (`tid` picks the trace, `l` the *)
 (* position in it).  Every step is total: a mismatch sets `err` to the     *)
 (* failing clause; Finish prints <<"V", tid, err, l>> once per trace and   *)
-(* <<"T", tid, k, ncmp, nflat>> (k = index of the offending port entry /   *)
-(* variable; ncmp / nflat = leaf comparisons made / made through a         *)
-(* multi-leaf FlatMap layout) and, in mode "drv", <<"R", tid, first        *)
+(* <<"T", tid, k, ncmp, nflat, bad>> (k = index of the offending port      *)
+(* entry / variable; ncmp / nflat = leaf comparisons made / made through a *)
+(* multi-leaf FlatMap layout; bad = indices of all differing port entries  *)
+(* of the failing event) and, in mode "drv", <<"R", tid, first        *)
 (* multiply driven variable, #multiply driven, #undriven>>.                *)
 (*                                                                         *)
 (* Trace := [d: design (see SVSem), mode: "run" | "drv", ev: Seq(Event)]   *)
@@ -35,8 +36,8 @@ BS == INSTANCE BitStruct WITH Shape <- [k |-> "leaf", w |-> 1], Names <- {}, obj
 Input  == JsonDeserialize(IOEnv.VERIF_INPUT)
 Traces == Input.traces
 
-VARIABLES tid, l, err, fin, st, k, ncmp, nflat
-tvars == <<tid, l, err, fin, st, k, ncmp, nflat>>
+VARIABLES tid, l, err, fin, st, k, ncmp, nflat, bad
+tvars == <<tid, l, err, fin, st, k, ncmp, nflat, bad>>
 
 T == Traces[tid]
 D == T.d
@@ -92,11 +93,19 @@ Compare(d, s, outs, clause) ==
 NLeaves(ps, flatonly) ==
     FoldLeft(LAMBDA a, p : IF flatonly /\ p.ty.k = "leaf" THEN a ELSE a + Len(BS!Layout(p.ty)), 0, ps)
 
+\* every port entry of `outs` that differs (at most 8 are reported): a known mismatch on one port must
+\* not hide a mismatch on another one
+AllBad(d, s, outs, clause) ==
+    LET one(i) == Compare(d, s, <<outs[i]>>, clause).err # "ok"
+        all    == SelectSeq(S!Idx(Len(outs)), one)
+    IN  SubSeq(all, 1, S!Min2(Len(all), 8))
+
 Init == /\ tid \in 1 .. Len(Traces)
         /\ l = 0 /\ err = "ok" /\ fin = FALSE /\ k = 0
-        /\ st = <<>> /\ ncmp = 0 /\ nflat = 0
+        /\ st = <<>> /\ ncmp = 0 /\ nflat = 0 /\ bad = <<>>
 
-Fail(c, kk) == err' = c /\ k' = kk /\ UNCHANGED <<tid, l, fin, st, ncmp, nflat>>
+Fail(c, kk) == err' = c /\ k' = kk /\ UNCHANGED <<tid, l, fin, st, ncmp, nflat, bad>>
+FailAll(c, kk, b) == err' = c /\ k' = kk /\ bad' = b /\ UNCHANGED <<tid, l, fin, st, ncmp, nflat>>
 
 \* l = 0: build the initial state (or, in mode "drv", evaluate OneDriver)
 Start ==
@@ -107,11 +116,11 @@ Start ==
                /\ k' = r.multi
                /\ PrintT(<<"R", tid, r.multi, r.nmulti, r.undriven>>)
                /\ l' = Len(T.ev) + 1
-               /\ UNCHANGED <<tid, fin, st, ncmp, nflat>>
+               /\ UNCHANGED <<tid, fin, st, ncmp, nflat, bad>>
        ELSE
            LET c == S!InitState(D)
            IN  IF c.err # "ok" THEN Fail(c.err, 0)
-               ELSE /\ st' = c.st /\ l' = 1 /\ UNCHANGED <<tid, err, fin, k, ncmp, nflat>>
+               ELSE /\ st' = c.st /\ l' = 1 /\ UNCHANGED <<tid, err, fin, k, ncmp, nflat, bad>>
 
 Step ==
     /\ l >= 1
@@ -124,22 +133,22 @@ Step ==
            c2 == Compare(D, s4.st, ev.outt, "mismatch-tick")
        IN  IF s1.err # "ok" THEN Fail(s1.err, s1.k)
            ELSE IF s2.err # "ok" THEN Fail("comb:" \o s2.err, 0)
-           ELSE IF c1.err # "ok" THEN Fail(c1.err, c1.k)
-           ELSE IF ~ev.tick THEN /\ st' = s2.st /\ l' = l + 1 /\ UNCHANGED <<tid, err, fin, k>>
+           ELSE IF c1.err # "ok" THEN FailAll(c1.err, c1.k, AllBad(D, s2.st, ev.outc, "mismatch-comb"))
+           ELSE IF ~ev.tick THEN /\ st' = s2.st /\ l' = l + 1 /\ UNCHANGED <<tid, err, fin, k, bad>>
                                  /\ ncmp' = ncmp + NLeaves(ev.outc, FALSE)
                                  /\ nflat' = nflat + NLeaves(ev.outc, TRUE)
            ELSE IF s3.err # "ok" THEN Fail("edge:" \o s3.err, 0)
            ELSE IF s4.err # "ok" THEN Fail("tick:" \o s4.err, 0)
-           ELSE IF c2.err # "ok" THEN Fail(c2.err, c2.k)
-           ELSE /\ st' = s4.st /\ l' = l + 1 /\ UNCHANGED <<tid, err, fin, k>>
+           ELSE IF c2.err # "ok" THEN FailAll(c2.err, c2.k, AllBad(D, s4.st, ev.outt, "mismatch-tick"))
+           ELSE /\ st' = s4.st /\ l' = l + 1 /\ UNCHANGED <<tid, err, fin, k, bad>>
                 /\ ncmp' = ncmp + NLeaves(ev.outc, FALSE) + NLeaves(ev.outt, FALSE)
                 /\ nflat' = nflat + NLeaves(ev.outc, TRUE) + NLeaves(ev.outt, TRUE)
 
 \* (IF, not \/: TLC would split a disjunction into two evaluations and print twice)
 Finish == /\ ~fin /\ (IF err # "ok" THEN TRUE ELSE l > Len(T.ev))
           /\ PrintT(<<"V", tid, err, l>>)
-          /\ PrintT(<<"T", tid, k, ncmp, nflat>>)
-          /\ fin' = TRUE /\ UNCHANGED <<tid, l, err, st, k, ncmp, nflat>>
+          /\ PrintT(<<"T", tid, k, ncmp, nflat, bad>>)
+          /\ fin' = TRUE /\ UNCHANGED <<tid, l, err, st, k, ncmp, nflat, bad>>
 
 Next == \/ /\ ~fin /\ err = "ok" /\ l <= Len(T.ev)
            /\ (Start \/ Step)
